@@ -370,6 +370,53 @@ def base_name(n):
     return re.sub(r'\.\d+$', '', n)
 
 
+def check_icf_full_state(rep, mod):
+    """the level 1-3 bodies turn input into ICF tokens in a buffer of the level buffer; when that buffer is full the only way forward is ZSTATE_CREATE_HDR (encode and drain the tokens)"""
+    R = rep.rule('R-ICF-FULL-STATE', 'in the portable ICF bodies (isal_deflate_icf_body_hash_hist_base, isal_deflate_icf_finish_hash_hist_base, isal_deflate_icf_finish_hash_map_base) every edge taken when the token cursor '
+                 'has reached the end of the token buffer (next_out >= end_out) leads to a return only through a store of ZSTATE_CREATE_HDR to the state: a call that stops because no token fits hands over to the '
+                 'state that empties the buffer, otherwise every later call comes back here with nothing done', floor=4, unit='token-buffer-full edges')
+    Kc, drop = mirror.c_values('default', ['igzip_lib.h'], [('CH', 'ZSTATE_CREATE_HDR')], 'c10_ch')
+    if drop:
+        raise AnalysisBroken('ZSTATE_CREATE_HDR not found')
+    off = c19.field_offsets('struct isal_zstream', ['internal_state.state'])['internal_state.state']
+    for fn in ('isal_deflate_icf_body_hash_hist_base', 'isal_deflate_icf_finish_hash_hist_base', 'isal_deflate_icf_finish_hash_map_base'):
+        f = mod.funcs.get(fn)
+        if f is None:
+            raise AnalysisBroken('%s not found' % fn)
+        P = irrules.prov(mod, f)
+        sets = {i.block for i in f.all_insns() if i.op == 'store' and re.match(r'^\d+$', i.ops[0]) and int(i.ops[0]) == Kc['CH'] and any(a[0] == 'param' and a[1] == 0 and a[2] == off for a in P.atoms(i.ops[1]))}
+        if not sets:
+            raise AnalysisBroken('%s never stores ZSTATE_CREATE_HDR' % fn)
+        succ = {b: list(f.blocks[b].insns[-1].extra.get('targets') or []) for b in f.order}
+        for b in f.order:
+            br = f.blocks[b].insns[-1]
+            c0 = f.defs.get(br.extra.get('cond', '')) if br.op == 'br' and br.extra.get('cond') else None
+            if c0 is None:
+                continue
+            # a short-circuit condition (a && b) arrives as a phi of i1: each comparison that feeds it decides the branch on the path it comes from
+            cmps = [c0] if c0.op == 'icmp' else [f.defs.get(v) for v, _ in c0.extra['incoming']] if c0.op == 'phi' else []
+            for c in cmps:
+                if c is None or c.op != 'icmp' or not (c.ty or '').endswith('*') or (c.ty or '') == 'i8*':
+                    continue
+                tt, tf = br.extra['targets']
+                full = {'uge': tt, 'ugt': tt, 'ult': tf, 'ule': tf}.get(c.extra['pred'])
+                if full is None:
+                    continue
+                R.instance()
+                seen, work, esc = set(), [full], None
+                while work and esc is None:
+                    x = work.pop()
+                    if x in seen or x in sets:
+                        continue
+                    seen.add(x)
+                    if f.blocks[x].insns[-1].op == 'ret':
+                        esc = x
+                    work += succ.get(x, [])
+                R.check(esc is None, mod.where(f, c), '%s: when the token buffer is full (this comparison) the function can return without storing ZSTATE_CREATE_HDR (through %s): the state machine stays in a state whose only '
+                        'action is to call this function again with a full token buffer' % (fn, sorted(seen)[:5]), key='R-ICF-FULL-STATE|%s|%s' % (fn, b), sample='%s: full -> ZSTATE_CREATE_HDR' % fn)
+
+
+
 def main(tier):
     rep = Report('C10', tier, level='other')
     rep.undecided = UNDECIDED
@@ -398,6 +445,7 @@ def main(tier):
                           **c19.field_offsets('struct level_buf', ['icf_buf_next', 'icf_buf_avail_out'], headers=('igzip_level_buf_structs.h',))))
     import progress
     rep.attempt(progress.check, rep, mod, 20)
+    rep.attempt(check_icf_full_state, rep, mod)
     import siblings
     _names = ['total_in_start', 'block_next', 'block_end', 'dist_mask', 'hash_mask', 'state', 'bitbuf', 'crc', 'has_wrap_hdr', 'has_eob_hdr', 'has_eob', 'has_hist', 'has_level_buf_init', 'count', 'tmp_out_buff',
               'tmp_out_start', 'tmp_out_end', 'b_bytes_valid', 'b_bytes_processed', 'buffer', 'head']
